@@ -8,6 +8,14 @@ E1 = 'explicit-state model checking of the implementation (delay-bounded / full 
 E2 = 'bounded-exhaustive operation-sequence exploration of the real component against an independent reference model (product BFS with state merging)'
 
 CHECKS = {
+    'C01': dict(engine='E1-cluster', category='model_checking', technique=E1 + ' + fair-closure bounded liveness',
+                ref='DESIGN.md section 4, C01',
+                text='cold starts, late joins, crashes, restarts and isolations/rejoins are explored over the option sets; from '
+                     'the explored states the fair closure must end with every connected group agreeing on one Master of the '
+                     'group, seen RUNNING by all and by itself; single-fault histories are compared with an independent election '
+                     'rule; automatic start/stop requests must come from an instance that regards itself as the Master',
+                note='bounded as listed in the evidence (N<=3, D, T, F); the reference election rule is only applied to '
+                     'single-fault histories from an agreed situation'),
     'C02': dict(engine='E1-cluster', category='model_checking', technique=E1, ref='DESIGN.md section 4, C02',
                 text='every schedule of ticks, deliveries, crashes, isolations, restarts and restart/shutdown/end_sync '
                      'requests within the stated bounds (N<=3, D deviations, T ticks, F faults) is executed on the real '
